@@ -15,6 +15,8 @@ STYLES = [dict(sep='\n', paren=True, upper=False, header=True, delim='{}'),
 COMMENTS = ['# just a comment circle(1,2,3)', '# text labels for the sources follow', '# composite of two fields', '# textual note', '#', '# text: see the catalogue',
             '# Region file format: DS9 version 4.1']
 COMMENT = [0]
+UNSUPPORTED_FRAMES = ['physical', 'wcs', 'detector', 'wcsa', 'linear', 'amplifier', 'wcs0', 'tile', 'wcsz']
+UNSUP = [0]
 
 
 def sexa(v, style):
@@ -63,8 +65,8 @@ def props(p, st):
             else:
                 raise ValueError(f'text {v!r} cannot be written with any DS9 delimiter')
             out.append(f'{k}={d[0]}{v}{d[1]}')
-        elif k0 == 'tag':
-            out.append(f'{k}={{{v}}}')
+        elif k0 in ('tag', 'tag2'):
+            out.append(f"{'TAG' if up else 'tag'}={{{v}}}")
         else:
             out.append(f'{k}={v}')
     return ' '.join(out)
@@ -74,6 +76,10 @@ def line(l, st):
     k = l['k']
     up = (lambda s: s.upper()) if st['upper'] else (lambda s: s)
     if k == 'frame':
+        if l['name'] == 'physical':
+            # every unsupported frame word stands for the same abstract line (warned about, clears the active frame)
+            UNSUP[0] += 1
+            return up(UNSUPPORTED_FRAMES[UNSUP[0] % len(UNSUPPORTED_FRAMES)])
         return up(l['name'])
     if k == 'global':
         return 'global ' + props(l['props'], st)
@@ -179,8 +185,9 @@ def compare(model, real, rel=1e-9):
         g = real.text if model['cls'] == 'text' else real.meta.get('text')
         if g != p['text']:
             return 'text', f'{g!r}, expected {p["text"]!r}'
-    if 'tag' in p and real.meta.get('tag') != [p['tag']]:
-        return 'tag', f'{real.meta.get("tag")!r}, expected {[p["tag"]]!r}'
+    want_tags = [p[k] for k in ('tag', 'tag2') if k in p]
+    if want_tags and real.meta.get('tag') != want_tags:
+        return 'tag', f'{real.meta.get("tag")!r}, expected {want_tags!r}'
     g = real.visual.get('edgecolor', real.visual.get('color'))
     if g != p.get('color'):
         return 'color', f'{g!r}, expected {p.get("color")!r} (precedence global < composite < inline; composite properties end with the composite)'
